@@ -265,6 +265,11 @@ func (c *cors) handle(node types.Node, wh http.Header, r *http.Request) {
 		r.URL.Path != "*" // OPTIONS * 不算预检，也不存在其它的请求方法处理方式。
 
 	if preflight {
+		// 空路径与 * 一样指向根节点，其 Methods 是所有路由项的合集，而该地址本身仅支持 OPTIONS，不能据此通过预检。
+		if r.URL.Path == "" {
+			return
+		}
+
 		// Access-Control-Allow-Methods
 		methods := node.Methods() // 只读取一次，保证判断与输出的是同一时刻的内容。
 		if slices.Index(methods, reqMethod) < 0 {
